@@ -578,6 +578,18 @@ def _lookup(sc, name):
     return s
 
 
+def _typeof_repl(d, sc, e, allow_zero):
+    n = const_eval(e.count, sc.params, 'replication count')
+    if n < 0 or (n == 0 and not allow_zero):
+        raise ElabError('replication count %d is not positive' % n)
+    w = 0
+    for p in e.parts:
+        if p.kind == 'num' and p.width is None:
+            raise ElabError('unsized constant in replication')
+        w += _typeof(d, sc, p)[0]
+    return (n * w, False)
+
+
 def _typeof_raw(d, sc, e):
     k = e.kind
     if k == 'num':
@@ -613,14 +625,17 @@ def _typeof_raw(d, sc, e):
         for p in e.parts:
             if p.kind == 'num' and p.width is None:
                 raise ElabError('unsized constant in concatenation')
-            w += _typeof(d, sc, p)[0]
+            if p.kind == 'repl':
+                # 1364-2005 5.1.14: a zero replication constant is allowed only inside a concatenation
+                # in which at least one operand has a positive size
+                w += _typeof_repl(d, sc, p, allow_zero=True)[0]
+            else:
+                w += _typeof(d, sc, p)[0]
+        if w == 0:
+            raise ElabError('replication/concatenation of total size zero')
         return (w, False)
     if k == 'repl':
-        n = const_eval(e.count, sc.params, 'replication count')
-        if n <= 0:
-            raise ElabError('replication count %d is not positive' % n)
-        w = sum(_typeof(d, sc, p)[0] for p in e.parts)
-        return (n * w, False)
+        return _typeof_repl(d, sc, e, allow_zero=False)
     if k == 'syscall':
         w, _ = _typeof(d, sc, e.e)
         return (w, e.name == '$signed')
@@ -704,6 +719,8 @@ def _eval(d, sc, e, W, S):
     if k == 'concat':
         v = 0
         for p in e.parts:
+            if p.kind == 'repl' and const_eval(p.count, sc.params) == 0:
+                continue
             pv, pw, _ = _self_eval(d, sc, p)
             v = (v << pw) | pv
         w = _typeof(d, sc, e)[0]
